@@ -124,3 +124,177 @@ pub fn run_transform(l: &[i128]) -> Vec<i128> {
         None => vec![-2],
     }
 }
+
+/// Structural guarantees and tight bounds of a path obtained through the public API.
+/// args: op (0 the built path, 1 its stroke (width 3, round join / cap), 2 its dash [3, 2]) then builder ops (c02 format)
+/// -> [status (0 checked, 1 no path), structural defect code (0 none), tight-bounds defect (0 none, 1 outside bounds(), 2 off the true extent),
+///     got * 1000, expected * 1000]
+pub fn run_tight_bounds(l: &[i128]) -> Vec<i128> {
+    use tiny_skia_path::{PathSegment, PathVerb, Stroke, StrokeDash, LineCap, LineJoin};
+    if l.is_empty() {
+        return vec![-3];
+    }
+    let path = match crate::c02::build_path(&l[1..]) {
+        Some(p) => p,
+        None => return vec![1, 0, 0, 0, 0],
+    };
+    let path = match l[0] {
+        0 => path,
+        1 => {
+            let st = Stroke { width: 3.0, miter_limit: 4.0, line_cap: LineCap::Round, line_join: LineJoin::Round, dash: None };
+            match path.stroke(&st, 1.0) {
+                Some(p) => p,
+                None => return vec![1, 0, 0, 0, 0],
+            }
+        }
+        _ => match StrokeDash::new(vec![3.0, 2.0], 0.5).and_then(|d| path.dash(&d, 1.0)) {
+            Some(p) => p,
+            None => return vec![1, 0, 0, 0, 0],
+        },
+    };
+    // structure
+    let verbs = path.verbs();
+    let pts = path.points();
+    let mut code = 0i128;
+    if verbs.len() < 2 {
+        code = 1;
+    } else if verbs[0] != PathVerb::Move {
+        code = 2;
+    }
+    for w in verbs.windows(2) {
+        if w[0] == PathVerb::Move && w[1] == PathVerb::Move {
+            code = 3;
+        }
+        if w[0] == PathVerb::Close && w[1] == PathVerb::Close {
+            code = 4;
+        }
+        if w[0] == PathVerb::Close && w[1] != PathVerb::Move {
+            code = 5;
+        }
+    }
+    let need: usize = verbs.iter().map(|v| match v { PathVerb::Move | PathVerb::Line => 1, PathVerb::Quad => 2, PathVerb::Cubic => 3, PathVerb::Close => 0 }).sum();
+    if need != pts.len() {
+        code = 6;
+    }
+    if pts.iter().any(|p| !p.x.is_finite() || !p.y.is_finite()) {
+        code = 7;
+    }
+    let b = path.bounds();
+    let (mut l_, mut t_, mut r_, mut b_) = (f32::MAX, f32::MAX, f32::MIN, f32::MIN);
+    for p in pts {
+        l_ = l_.min(p.x);
+        t_ = t_.min(p.y);
+        r_ = r_.max(p.x);
+        b_ = b_.max(p.y);
+    }
+    if (b.left(), b.top(), b.right(), b.bottom()) != (l_, t_, r_, b_) {
+        code = 8;
+    }
+    let replay: Vec<PathVerb> = path.segments().map(|s| match s {
+        PathSegment::MoveTo(_) => PathVerb::Move,
+        PathSegment::LineTo(_) => PathVerb::Line,
+        PathSegment::QuadTo(..) => PathVerb::Quad,
+        PathSegment::CubicTo(..) => PathVerb::Cubic,
+        PathSegment::Close => PathVerb::Close,
+    }).collect();
+    if replay != verbs {
+        code = 9;
+    }
+    // true extent (f64, analytic extrema)
+    let (mut el, mut et, mut er, mut eb) = (f64::MAX, f64::MAX, f64::MIN, f64::MIN);
+    let mut add = |x: f64, y: f64| {
+        el = el.min(x);
+        et = et.min(y);
+        er = er.max(x);
+        eb = eb.max(y);
+    };
+    let mut last = (0.0f64, 0.0f64);
+    let mut start = last;
+    for s in path.segments() {
+        match s {
+            PathSegment::MoveTo(p) => {
+                last = (p.x as f64, p.y as f64);
+                start = last;
+                add(last.0, last.1);
+            }
+            PathSegment::LineTo(p) => {
+                last = (p.x as f64, p.y as f64);
+                add(last.0, last.1);
+            }
+            PathSegment::QuadTo(a, p) => {
+                let (p0, p1, p2) = (last, (a.x as f64, a.y as f64), (p.x as f64, p.y as f64));
+                let ev = |t: f64| {
+                    let u = 1.0 - t;
+                    (u * u * p0.0 + 2.0 * u * t * p1.0 + t * t * p2.0, u * u * p0.1 + 2.0 * u * t * p1.1 + t * t * p2.1)
+                };
+                for (c0, c1, c2) in [(p0.0, p1.0, p2.0), (p0.1, p1.1, p2.1)] {
+                    let d = c0 - 2.0 * c1 + c2;
+                    if d != 0.0 {
+                        let t = (c0 - c1) / d;
+                        if t > 0.0 && t < 1.0 {
+                            let q = ev(t);
+                            add(q.0, q.1);
+                        }
+                    }
+                }
+                last = p2;
+                add(last.0, last.1);
+            }
+            PathSegment::CubicTo(a, c, p) => {
+                let (p0, p1, p2, p3) = (last, (a.x as f64, a.y as f64), (c.x as f64, c.y as f64), (p.x as f64, p.y as f64));
+                let ev = |t: f64| {
+                    let u = 1.0 - t;
+                    let f = |a0: f64, a1: f64, a2: f64, a3: f64| u * u * u * a0 + 3.0 * u * u * t * a1 + 3.0 * u * t * t * a2 + t * t * t * a3;
+                    (f(p0.0, p1.0, p2.0, p3.0), f(p0.1, p1.1, p2.1, p3.1))
+                };
+                for (c0, c1, c2, c3) in [(p0.0, p1.0, p2.0, p3.0), (p0.1, p1.1, p2.1, p3.1)] {
+                    // derivative / 3 = A t^2 + B t + C
+                    let (qa, qb, qc) = (-c0 + 3.0 * c1 - 3.0 * c2 + c3, 2.0 * (c0 - 2.0 * c1 + c2), c1 - c0);
+                    let mut roots = Vec::new();
+                    if qa.abs() < 1e-12 * (qb.abs() + qc.abs() + 1e-300) {
+                        if qb != 0.0 {
+                            roots.push(-qc / qb);
+                        }
+                    } else {
+                        let disc = qb * qb - 4.0 * qa * qc;
+                        if disc >= 0.0 {
+                            let sq = disc.sqrt();
+                            roots.push((-qb + sq) / (2.0 * qa));
+                            roots.push((-qb - sq) / (2.0 * qa));
+                        }
+                    }
+                    for t in roots {
+                        if t > 0.0 && t < 1.0 {
+                            let q = ev(t);
+                            add(q.0, q.1);
+                        }
+                    }
+                }
+                last = p3;
+                add(last.0, last.1);
+            }
+            PathSegment::Close => {
+                last = start;
+            }
+        }
+    }
+    let tb = match path.compute_tight_bounds() {
+        Some(v) => v,
+        None => return vec![0, code, 3, 0, 0],
+    };
+    let scale = el.abs().max(et.abs()).max(er.abs()).max(eb.abs()).max(1.0);
+    let tol = 2e-5 * scale;
+    let mut tcode = 0i128;
+    let (mut got, mut exp) = (0.0f64, 0.0f64);
+    if tb.left() < b.left() || tb.top() < b.top() || tb.right() > b.right() || tb.bottom() > b.bottom() {
+        tcode = 1;
+    }
+    for (g, e) in [(tb.left() as f64, el), (tb.top() as f64, et), (tb.right() as f64, er), (tb.bottom() as f64, eb)] {
+        if (g - e).abs() > tol && tcode == 0 {
+            tcode = 2;
+            got = g;
+            exp = e;
+        }
+    }
+    vec![0, code, tcode, (got * 1000.0) as i128, (exp * 1000.0) as i128]
+}
